@@ -262,6 +262,7 @@ def run_job(job: dict) -> dict:
     rec = Recorder()
     specs = job['specs']
     sess = [build_session(s) for s in specs]  # sessions are established before traffic flows
+    setup_klass = list(rec.klass)  # the OPENs of the session establishment went through Capability.klass
     rec.calls.clear()
     rec.klass.clear()
     setup_klass_ids = rec.class_ids()
@@ -295,6 +296,7 @@ def run_job(job: dict) -> dict:
         'again': again,
         'class_ids': rec.class_ids(),
         'class_ids_after_setup': setup_klass_ids,
+        'setup_klass': setup_klass,
         'params': [{'asn4': int(bool(neg.asn4)), 'aigp': int(bool(neg.aigp))} for _, neg in sess],
         'pid': os.getpid(),
     }
